@@ -1,7 +1,7 @@
-(* C05 at the level of query TEXT (ASCII): the printed tokens, written with single blanks between them, lex back to the printed
+(* C05 at the level of query TEXT (any bytes): the printed tokens, written with single blanks between them, lex back to the printed
    tokens; hence Parse of the text returns the expected tree *)
 Require Import Parser Api ParserRoundTrip ParserRoundTripV Printer.
-Require Lex LexWs.
+Require Lex LexWs LexWsG.
 From Coq Require Import List Ascii String NArith Bool Arith Lia.
 Import ListNotations.
 
@@ -20,13 +20,13 @@ Variable o : oracle.
 Variable cl : Lex.classes.
 Hypothesis ws_not_alnum : forall r, Lex.is_space r = true -> Lex.is_alnum cl r = false.
 
-Theorem printed_text_lexes ts : Forall (LexWs.lexes_alone cl) (map ltok ts) -> Api.lex_tokens cl (text_of ts) = ts ++ [eof].
+Theorem printed_text_lexes ts : Forall (LexWsG.lexes_clean cl) (map ltok ts) -> Api.lex_tokens cl (text_of ts) = ts ++ [eof].
 Proof.
   intros H. unfold Api.lex_tokens, text_of. rewrite list_ascii_of_string_of_list_ascii.
-  rewrite (LexWs.lex_spaced_text cl ws_not_alnum _ H). rewrite map_app, map_tok_of_ltok. reflexivity.
+  rewrite (LexWsG.lex_spaced_text_g cl ws_not_alnum _ H). rewrite map_app, map_tok_of_ltok. reflexivity.
 Qed.
 
-Theorem printed_text_parses t : wfq o t -> Forall (LexWs.lexes_alone cl) (map ltok (pr t)) ->
+Theorem printed_text_parses t : wfq o t -> Forall (LexWsG.lexes_clean cl) (map ltok (pr t)) ->
   Api.parse o cl ""%string (text_of (pr t)) = PTree (want o t).
 Proof.
   intros W H. unfold Api.parse. rewrite (printed_text_lexes (pr t) H). apply printed_tree_parses. exact W.
@@ -37,14 +37,14 @@ End T.
 Definition lit_tok (s : string) : token := {| typ := TLiteral; val := s |}.
 Example printed_text_example :
   let t := QAnd (QFv (lit_tok "a") (tk TColon) (lit_tok "b")) (QNot (QBoost (QPar (QOr (QTerm (lit_tok "c")) (QTerm (lit_tok "d")))) (Some (lit_tok "2")))) in
-  Forall (LexWs.lexes_alone LexWs.cl_ascii) (map ltok (pr t)) /\ text_of (pr t) = "a : b AND NOT ( c OR d ) ^ 2 "%string.
+  Forall (LexWsG.lexes_clean LexWs.cl_ascii) (map ltok (pr t)) /\ text_of (pr t) = "a : b AND NOT ( c OR d ) ^ 2 "%string.
 Proof.
   cbn zeta. split; [|reflexivity].
-  repeat (apply Forall_cons; [split; [reflexivity|split; [split; discriminate|split; [vm_compute; discriminate|reflexivity]]]|]).
+  repeat (apply Forall_cons; [split; [split; discriminate|vm_compute; reflexivity]|]).
   apply Forall_nil.
 Qed.
 
-(* C07 at the level of query text (ASCII): two adjacent terms written with a blank between them, or with AND between them *)
+(* C07 at the level of query text (any bytes): two adjacent terms written with a blank between them, or with AND between them *)
 Require Import ParserJuxt ParserJuxtParse Build.
 Section J.
 Variable o : oracle.
@@ -52,12 +52,12 @@ Variable cl : Lex.classes.
 Hypothesis ws_not_alnum : forall r, Lex.is_space r = true -> Lex.is_alnum cl r = false.
 
 Theorem juxt_same_text df pre t1 t2 post : term_tok t1 = true -> term_tok t2 = true ->
-  Forall (LexWs.lexes_alone cl) (map ltok (pre ++ t1 :: t2 :: post)) -> LexWs.lexes_alone cl (ltok and_tok) ->
+  Forall (LexWsG.lexes_clean cl) (map ltok (pre ++ t1 :: t2 :: post)) -> LexWsG.lexes_clean cl (ltok and_tok) ->
   Api.parse o cl df (text_of (pre ++ t1 :: t2 :: post)) = Api.parse o cl df (text_of (pre ++ t1 :: and_tok :: t2 :: post)).
 Proof.
   intros H1 H2 HA Hand. unfold Api.parse.
   rewrite (printed_text_lexes cl ws_not_alnum _ HA).
-  assert (HB : Forall (LexWs.lexes_alone cl) (map ltok (pre ++ t1 :: and_tok :: t2 :: post))).
+  assert (HB : Forall (LexWsG.lexes_clean cl) (map ltok (pre ++ t1 :: and_tok :: t2 :: post))).
   { rewrite map_app in *. apply Forall_app in HA. destruct HA as [Hp Hr]. apply Forall_app. split; [exact Hp|].
     cbn [map] in *. inversion Hr; subst. constructor; [assumption|]. constructor; assumption. }
   rewrite (printed_text_lexes cl ws_not_alnum _ HB).
